@@ -37,6 +37,19 @@ fn cls() -> Vec<(String, String)> {
     vec![("a".to_string(), "b".to_string())]
 }
 
+/// The serial number std gives to the next thread it creates: `ThreadId`s are handed out from a
+/// process-wide counter, so the difference between two probes, minus the threads this harness
+/// started itself, is the number of threads somebody else started in between -- including threads
+/// that were joined again before anyone could count the live ones.
+fn thread_serial() -> u64 {
+    std::thread::spawn(|| {
+        let s = format!("{:?}", std::thread::current().id());
+        s.trim_start_matches("ThreadId(").trim_end_matches(')').parse::<u64>().unwrap_or(0)
+    })
+    .join()
+    .unwrap_or(0)
+}
+
 fn threads() -> usize {
     std::fs::read_dir("/proc/self/task").map(|d| d.count()).unwrap_or(0)
 }
@@ -147,6 +160,9 @@ fn main() {
         }
     };
     let th0 = threads();
+    let _ = std::thread::current().id();
+    let serial0 = thread_serial();
+    let mut own_threads = 0u64;
     fastrace::set_reporter(Rep, Config::default().report_interval(Duration::from_millis(1)));
     std::thread::sleep(Duration::from_millis(20));
     let th1 = threads();
@@ -319,10 +335,17 @@ fn main() {
                 "stream_sink_adapters"
             }
             25 if step % 97 == 0 => {
+                let a = thread_serial();
                 fastrace::flush();
+                let b = thread_serial();
+                own_threads += 2;
+                if b != a + 1 {
+                    bad("thread-started", format!("flush() started {} thread(s) (thread serial went from {} to {})", b.wrapping_sub(a + 1), a, b));
+                }
                 "flush"
             }
             26 if step % 211 == 0 => {
+                own_threads += 1;
                 let h = std::thread::spawn(|| {
                     let r = Span::root("t", SpanContext::random()).with_property(cl);
                     let _g = r.set_local_parent();
@@ -362,6 +385,11 @@ fn main() {
     if th2 != th0 {
         bad("thread-started", format!("number of threads went from {} to {} (before flush {})", th0, th2, before_flush));
     }
+    let serial1 = thread_serial();
+    let foreign_threads = serial1.wrapping_sub(serial0 + 1 + own_threads);
+    if foreign_threads != 0 {
+        bad("thread-started", format!("{} thread(s) were started by the library over the run (thread serial {} -> {}, {} started by the harness)", foreign_threads, serial0, serial1, own_threads + 1));
+    }
     let c = CLOSURES.load(Ordering::SeqCst);
     if c != 0 {
         bad("closure-invoked", format!("{} property closures were invoked in a disabled build", c));
@@ -383,6 +411,7 @@ fn main() {
         "closures_invoked": c,
         "report_calls": r,
         "threads_before_after": [th0, th2],
+        "thread_serials": {"first": serial0, "last": serial1, "started_by_harness": own_threads + 1, "started_by_library": foreign_threads},
         "violations": viol,
         "inconclusive": [],
         "known_findings": {},
